@@ -181,6 +181,7 @@ func (ex *Exec) builtin(fr *Frame, st *State, b *ssa.Builtin, cc *ssa.CallCommon
 			set(v)
 		}
 	case "copy":
+		ex.checkCallSites(fr, st, "copy", args, pos)
 		n := ex.copyMem(st, args[0], args[1])
 		set(Val{L: []string{n}})
 	case "clear":
